@@ -26,6 +26,7 @@ Routines and classes for creating priors and timeslices for use in tsdate
 
 import logging
 import os
+import tempfile
 from collections import defaultdict, namedtuple
 
 import numpy as np
@@ -41,6 +42,7 @@ from .accelerate import numba_jit
 #: The default value for `approx_prior_size` (see :func:`~tsdate.build_prior_grid` and
 #: :func:`~tsdate.build_parameter_grid`)
 DEFAULT_APPROX_PRIOR_SIZE = 10000
+PRECALC_CACHE_FOOTER = "end of tsdate prior cache"
 
 
 class PriorParams(namedtuple("PriorParamsBase", "alpha, beta, mean, var")):
@@ -144,10 +146,11 @@ class ConditionalCoalescentTimes:
         if precalc_approximation_n:
             # Create lookup table based on a large n that can be used for n > ~50
             filename = self.get_precalc_cache(precalc_approximation_n)
-            if os.path.isfile(filename):
-                # Have already calculated and stored this
-                self.approx_priors = np.genfromtxt(filename)
-            else:
+            # Use the stored table if it exists and is complete
+            self.approx_priors = self.read_precalc_cache(
+                filename, precalc_approximation_n
+            )
+            if self.approx_priors is None:
                 # Calc and store
                 self.approx_priors = self.precalculate_priors_for_approximation(
                     precalc_approximation_n,
@@ -264,8 +267,43 @@ class ConditionalCoalescentTimes:
         all_tips = np.arange(2, n + 1)
         prior_lookup_table[1:, 0] = all_tips / n
         prior_lookup_table[1:, 1] = conditional_coalescent_variance(n + 1)[all_tips]
-        np.savetxt(self.get_precalc_cache(n), prior_lookup_table)
+        # Write to a temporary file then rename, so that an interrupted or
+        # concurrent write never leaves a partial table under the cache name
+        filename = self.get_precalc_cache(n)
+        fd, tmp_filename = tempfile.mkstemp(
+            dir=os.path.dirname(filename), prefix=os.path.basename(filename) + "."
+        )
+        try:
+            with os.fdopen(fd, "w") as f:
+                np.savetxt(f, prior_lookup_table, footer=PRECALC_CACHE_FOOTER)
+            os.replace(tmp_filename, filename)
+        except BaseException:
+            if os.path.isfile(tmp_filename):
+                os.remove(tmp_filename)
+            raise
         return prior_lookup_table
+
+    @staticmethod
+    def read_precalc_cache(filename, n):
+        """
+        Return the cached lookup table, or None if there is no file or it is
+        not a complete table for n tips (e.g. it was truncated)
+        """
+        if not os.path.isfile(filename):
+            return None
+        try:
+            with open(filename) as f:
+                lines = f.read().splitlines()
+            complete = len(lines) > 0 and lines[-1] == "# " + PRECALC_CACHE_FOOTER
+            table = np.genfromtxt(filename) if complete else None
+        except (OSError, ValueError):
+            table = None
+        if table is None or table.shape != (n, 2) or not np.all(np.isfinite(table)):
+            logging.warning(
+                f"Ignoring incomplete precalculated priors in `{filename}`"
+            )
+            return None
+        return table
 
     def clear_precalculated_priors(self):
         if os.path.isfile(self.get_precalc_cache(self.n_approx)):
